@@ -403,9 +403,12 @@ func checkJSONQuery(r *mc.Run, ts []target, c qcase, st *a1state, part string) s
 		if first == "" {
 			first = what
 		}
-		if len(details) < 3 {
-			details = append(details, what+": "+detail)
+		for _, d := range details {
+			if strings.HasPrefix(d, what+": ") {
+				return // one example per kind of failure
+			}
 		}
+		details = append(details, what+": "+detail)
 	}
 	finish := func() string {
 		if first == "" {
@@ -1479,6 +1482,42 @@ func Run(r *mc.Run) {
 	items := n * n
 	var total, accepted, rejected, executed atomic.Int64
 	var hung atomic.Bool
+	// strings of length ≤ 2 first and in order, so that the example kept for a class is a shortest one
+	{
+		stt := &bstats{outcomes: map[string]int{}}
+		var current atomic.Value
+		current.Store("")
+		ok, pv, stk := mc.WithTimeout(120*time.Second, func() {
+			short := []string{""}
+			short = append(short, alphabet...)
+			for _, a := range alphabet {
+				for _, b := range alphabet {
+					short = append(short, a+b)
+				}
+			}
+			for _, s := range short {
+				current.Store(s)
+				checkString(r, ts, s, execLen, stt)
+			}
+		})
+		cs, _ := current.Load().(string)
+		if !ok {
+			r.Violation("query-string:does-not-terminate", fmt.Sprintf("parsing %q did not finish within 120 s", cs), map[string]any{"query_string": cs, "part": "b"})
+			r.Cap("a query-string parse did not terminate; run ended at once")
+			r.Finish()
+			return
+		}
+		if pv != nil {
+			r.Violation("query-string:panic", fmt.Sprintf("%q: panic %v @ %s", cs, pv, mc.TrimStack(stk)), map[string]any{"query_string": cs, "query_string_quoted": fmt.Sprintf("%q", cs), "part": "b"})
+		}
+		for k := range stt.outcomes {
+			r.Outcome(k)
+		}
+		total.Add(stt.total)
+		accepted.Add(stt.accepted)
+		rejected.Add(stt.rejected)
+		executed.Add(stt.executed)
+	}
 	r.ParFor(items, 0, func(it int) {
 		if hung.Load() {
 			return
@@ -1491,16 +1530,12 @@ func Run(r *mc.Run) {
 				current.Store(s)
 				checkString(r, ts, s, execLen, stt)
 			}
-			if it == 0 {
-				do("")
-				for _, a := range alphabet {
-					do(a)
-				}
-			}
 			prefix := alphabet[it/n] + alphabet[it%n]
 			var rec func(p string, left int)
 			rec = func(p string, left int) {
-				do(p)
+				if len(p) > 2 {
+					do(p)
+				}
 				if left == 0 || r.Expired() {
 					return
 				}
